@@ -9,6 +9,11 @@ import (
 
 // Phrase succeeds if the difference list of s0-s satisfies the grammar rule of grBody.
 func Phrase(vm *VM, grBody, s0, s Term, k Cont, env *Env) *Promise {
+	// A variable body translates to phrase/3 of that variable: calling it would come back here forever.
+	if _, ok := env.Resolve(grBody).(Variable); ok {
+		return Error(InstantiationError(env))
+	}
+
 	goal, err := dcgBody(grBody, s0, s, env)
 	if err != nil {
 		return Error(err)
